@@ -37,6 +37,7 @@ def check(tier, seed):
     with C.WorkDir('C02') as wd:
         C.audit_sources()
         C.props_obligations(res, 'C02', wd)
+        C.tie_b_kernels(res, wd, ('ck', 'ubx'))
         rng = C.rng_for(seed, 'C02')
         cases = build(rng, 150 if tier == 'quick' else 6000, res)
         res.compare(cases)
